@@ -104,6 +104,20 @@ def try_shrink(P, case, kind, budget=200):
                 break
     return cur
 
+def _shorten(x, depth=0):
+    """evidence samples stay readable: long lists / strings are cut (the full case is in the replay file when one is written)"""
+    if isinstance(x, str):
+        return x if len(x) <= 600 else x[:600] + "...[%d more characters]" % (len(x) - 600)
+    if isinstance(x, list):
+        cut = x[:30] if depth else x[:60]
+        out = [_shorten(v, depth + 1) for v in cut]
+        if len(x) > len(cut):
+            out.append("...[%d more items]" % (len(x) - len(cut)))
+        return out
+    if isinstance(x, dict):
+        return {k: _shorten(v, depth + 1) for k, v in x.items()}
+    return x
+
 _PAR_PROP = None
 def _par_run(case):
     obs = _PAR_PROP.run(case)
@@ -279,7 +293,7 @@ def run_check(P, tier="quick", seed=0, max_search_s=None):
     samples = []
     step = max(1, len(records) // 3)
     for case, obs, orc, k in records[::step][:3]:
-        samples.append(core.jsonable(dict(case=case, observed=obs)))
+        samples.append(_shorten(core.jsonable(dict(case=case, observed=obs))))
     thms = []
     for x in pos:
         thms.extend(x["theorems"])
